@@ -10,6 +10,7 @@ then parses ASCII — the two tables are read from the RUNNING interpreter's Uni
 follows the interpreter the agent runs on.
 """
 import ast
+import sys
 import unicodedata
 
 from pylean import Untranslatable, load, find_def, same_shape, header, lean_str, module_constants
@@ -83,7 +84,7 @@ def generate():
                  'def ndZeros : List Nat :=\n  [' + ', '.join(str(z) for z in zs) + ']\n')
     parts.append('/-- non-ASCII code points for which `str.isspace()` holds -/\n'
                  'def uSpaces : List Nat :=\n  [' + ', '.join(str(z) for z in sp) + ']\n')
-    parts.append('''/-- a value found in a tracepoint's arguments / an action's config.  A finite float is given by its truncation toward
+    parts.append(('''/-- a value found in a tracepoint's arguments / an action's config.  A finite float is given by its truncation toward
     zero (what `int(float)` returns; computed by the harness with `math.trunc`). -/
 inductive ArgVal where
   | str (s : String)
@@ -114,8 +115,15 @@ def asciiOf (c : Char) : Char :=
 
 def toAsciiDecimal (s : String) : String := String.ofList (s.toList.map asciiOf)
 
+/-- `sys.get_int_max_str_digits()` of the interpreter the extraction ran on (0 = no limit): integer TEXT with more decimal
+    digits raises ValueError (every digit counts, leading zeros too; sign, spaces, underscores do not) -/
+def maxStrDigits : Nat := %d
+
+def digitCount (s : String) : Nat := (s.toList.filter Char.isDigit).length
+
 /-- `int(s)` of a `str` -/
-def parseIntU (s : String) : Option Int := Py.parseInt (toAsciiDecimal s)
+def parseIntU (s : String) : Option Int :=
+  if maxStrDigits != 0 && decide (digitCount (toAsciiDecimal s) > maxStrDigits) then none else Py.parseInt (toAsciiDecimal s)
 
 def pyInt : ArgVal → IntOutcome
   | .str s => match parseIntU s with | some i => .ok i | none => .valueError
@@ -129,7 +137,7 @@ def pyInt : ArgVal → IntOutcome
 
 /-- `dict` with text keys, first binding wins -/
 abbrev ArgMap := List (String × ArgVal)
-''')
+''').replace('%d', str(sys.get_int_max_str_digits())))
     parts.append('/-- `TracePointConfig.get_arg`: `if name in self._args: return self._args[name]` / `return default_value` -/\n'
                  'def get_arg (args : ArgMap) (name : String) (default_value : ArgVal) : ArgVal :=\n'
                  '  if (args.lookup name).isSome then (args.lookup name).getD default_value else default_value\n')
